@@ -12,49 +12,106 @@ def CountsSoundS (m : CoinMap) : Prop :=
 
 /-- what is assumed of a state being sealed -/
 structure SealTotalPre (env : Env) (s : State) : Prop where
-  counts : CountsSoundS s.coins
+  /-- once TIP-906 is active the per-covenant counts are sound (C20) -/
+  counts : s.tip906 = true → CountsSoundS s.coins
+  /-- a coin sitting at an output slot of a transaction of this block is locked by that output's covenant
+      (the coin was created from that output by `apply_tx`) -/
+  faithfulCov : ∀ tx ∈ s.txs, ∀ i o c, tx.outputs[i]? = some o → s.coins.getCoin ⟨tx.hash, i⟩ = some c →
+      c.coinData.covhash = o.covhash
   /-- every pool that has issued liquidity has reserves on both sides (C16); builtin pools have reserves -/
   poolsSane : ∀ k p, s.pools.get k = some p → (p.liqs ≠ 0 → 0 < p.lefts ∧ 0 < p.rights)
   builtins : ∀ k ∈ [poolMelSym, poolMelErg, poolErgSym], ∀ p, s.pools.get k = some p → 0 < p.lefts ∧ 0 < p.rights ∧ 0 < p.liqs
-  /-- liquidity tokens held never reach a builtin pool's whole liquidity (C16; excluded: faucet-minted tokens, K-faucet-liq) -/
-  builtinsNotDrained : ∀ k ∈ [poolMelSym, poolMelErg, poolErgSym], ∀ p, s.pools.get k = some p →
+  /-- liquidity tokens held never reach a builtin pool's whole liquidity (C16; excluded: faucet-minted tokens,
+      K-faucet-liq). Stated for the pools after `create_builtins`, so that it also covers a builtin pool
+      created (with the nobody-owned default liquidity) by this very seal. -/
+  builtinsNotDrained : ∀ k ∈ [poolMelSym, poolMelErg, poolErgSym], ∀ p, (createBuiltins s).pools.get k = some p →
       ((s.txs.filter fun tx => tx.kind = .liqWithdraw ∧ canonicalPoolKey tx.data = some k).map
         fun tx => (tx.outputs.headD default).value).sum < p.liqs
-  /-- supply bound: fee pool, tips and every pool reserve are far below 2^128 -/
+  /-- supply bound: fee pool and tips, the MEL reserve of the MEL/SYM pool and the MEL paid into pools by
+      this block are far below 2^128 -/
   feeBound : s.feePool + s.tips + 2 ^ 21 ≤ 2 ^ 127
-  reserveBound : ∀ k p, s.pools.get k = some p → p.lefts ≤ 2 ^ 127 ∧ p.rights ≤ 2 ^ 127
+  reserveBound : ∀ p, s.pools.get poolMelSym = some p → p.lefts ≤ 2 ^ 125
+  melInflowBound : (s.txs.map fun tx =>
+      if (tx.outputs.headD default).denom = .mel then (tx.outputs.headD default).value else 0).sum ≤ 2 ^ 124
+  /-- typing: the liquidity of a builtin pool is a `u128` -/
+  liqsU128 : ∀ k ∈ [poolMelSym, poolMelErg, poolErgSym], ∀ p, s.pools.get k = some p → p.liqs ≤ U128_MAX
   txHashes : (s.txs.map (·.hash)).Nodup
   /-- the height is below the point where the subsidy shift amount would overflow (TIP-909 + 128 million blocks) -/
   height : s.height < TIP_909_HEIGHT + 128 * SUBSIDY_HALVING
-  /-- the reward id of this height is not a coin yet, and differs from the block's transaction hashes -/
-  rewardFresh : s.coins.getCoin ⟨env.rewardId s.height, 0⟩ = none
 
-/-- the arithmetic of the pool operations never crashes on a sane pool -/
-theorem C09_swap_total (p : PoolState) (l r : Nat) (hl : 0 < p.lefts) (hr : 0 < p.rights) :
+/-- the arithmetic of the pool operations never crashes on a sane pool (the amounts are `u128`s) -/
+theorem C09_swap_total (p : PoolState) (l r : Nat) (hl : 0 < p.lefts) (hr : 0 < p.rights)
+    (hl' : l ≤ U128_MAX) (hr' : r ≤ U128_MAX) :
     ∀ c, p.swapMany l r ≠ .crash c := by
-  sorry
+  obtain ⟨p', lw, rw, h, _⟩ := swapMany_spec p l r hl hr hl' hr'
+  exact Outcome.ne_crash_of_ok h
+
+/-- why `C09_swap_total` bounds the amounts: the statement for arbitrary naturals is false — once `rights + r`
+    saturates, the left share can exceed the left reserve. (Unreachable in the implementation: amounts are `u128`.) -/
+theorem C09_swap_needs_u128 :
+    ({ lefts := 1, rights := 1, priceAccum := 0, liqs := 0 } : PoolState).swapMany 0 (2 ^ 130)
+      = .crash "melswap.rs: lefts -= underflow" := by
+  rfl
 
 theorem C09_deposit_total (p : PoolState) (l r : Nat) (hs : p.liqs ≠ 0 → 0 < p.lefts ∧ 0 < p.rights) :
     ∀ c, p.deposit l r ≠ .crash c := by
-  sorry
+  obtain ⟨p', m, h, _⟩ := deposit_spec p l r hs
+  exact Outcome.ne_crash_of_ok h
 
 theorem C09_withdraw_total (p : PoolState) (q : Nat) (hq : 0 < q) (hle : q ≤ p.liqs) :
     ∀ c, p.withdraw q ≠ .crash c := by
-  sorry
+  obtain ⟨p', a, b, h, _⟩ := withdraw_spec p q hq hle
+  exact Outcome.ne_crash_of_ok h
 
 /-- the proposer action never crashes: the multiplier move is total (C17) and the reward fits -/
 theorem C09_action_total (env : Env) (s : State) (a : ProposerAction) (hb : s.feePool / 65536 + s.tips ≤ U128_MAX) :
     ∀ c, applyProposerAction env s a ≠ .crash c := by
-  sorry
+  obtain ⟨s', h⟩ := applyProposerAction_ok env s a hb
+  exact Outcome.ne_crash_of_ok h
 
 /-- the swap phase never crashes: every selected request has a positive amount and names a pool with reserves -/
-theorem C09_swaps_total (s : State) (hp : ∀ k p, s.pools.get k = some p → (p.liqs ≠ 0 → 0 < p.lefts ∧ 0 < p.rights)) :
-    ∀ c, processSwaps s ≠ .crash c := by
-  sorry
+theorem C09_swaps_total (s : State) : ∀ c, processSwaps s ≠ .crash c := by
+  obtain ⟨s', h⟩ := processSwaps_total s
+  exact Outcome.ne_crash_of_ok h
 
 /-- **sealing is total** -/
 theorem C09_seal_total (env : Env) (s : State) (a : Option ProposerAction) (hp : SealTotalPre env s) :
     ∀ c, sealState env s a ≠ .crash c := by
-  sorry
+  obtain ⟨ss, h⟩ := sealState_ok env s a hp.counts hp.faithfulCov hp.txHashes hp.poolsSane hp.builtins
+    hp.builtinsNotDrained hp.reserveBound hp.liqsU128 hp.melInflowBound hp.feeBound hp.height
+  exact Outcome.ne_crash_of_ok h
+
+/-- in fact sealing succeeds (nothing in it rejects) -/
+theorem C09_seal_ok (env : Env) (s : State) (a : Option ProposerAction) (hp : SealTotalPre env s) :
+    ∃ ss, sealState env s a = .ok ss :=
+  sealState_ok env s a hp.counts hp.faithfulCov hp.txHashes hp.poolsSane hp.builtins
+    hp.builtinsNotDrained hp.reserveBound hp.liqsU128 hp.melInflowBound hp.feeBound hp.height
+
+/-- non-vacuity: the empty state of a fresh chain satisfies the assumptions -/
+example (env : Env) : SealTotalPre env (default : State) := by
+  refine ⟨?_, ?_, ?_, ?_, ?_, ?_, ?_, ?_, ?_, ?_, ?_⟩
+  · intro h; exact absurd h (by decide)
+  · intro tx htx; cases htx
+  · intro k p h; cases h
+  · intro k _ p h; cases h
+  · intro k _ p h
+    rcases createBuiltins_get default k with e | e
+    · rw [e] at h; cases h
+    · rw [e] at h; cases h; show 0 < builtinDefault.liqs; decide
+  · decide
+  · intro p h; cases h
+  · decide
+  · intro k _ p h; cases h
+  · exact List.nodup_nil
+  · decide
 
 end Mel
+
+#print axioms Mel.C09_swap_total
+#print axioms Mel.C09_swap_needs_u128
+#print axioms Mel.C09_deposit_total
+#print axioms Mel.C09_withdraw_total
+#print axioms Mel.C09_action_total
+#print axioms Mel.C09_swaps_total
+#print axioms Mel.C09_seal_total
+#print axioms Mel.C09_seal_ok
